@@ -1,2 +1,111 @@
-/- C06 correspondence driver (stub: replaced when the property's model is built) -/
-def main : IO Unit := IO.println "stub"
+import PnVerif.Model.Redef
+/-
+  C06 correspondence driver.  One request per line on stdin, one answer per line on stdout.
+  Files are hex strings ("-" = empty file).  Every M*/ED line is prefixed with the read mode of the
+  model: `S` (short counts at end of file) or `F<b>` (full counts, bytes past the end read as <b>).
+
+    MB <nprocs> <unit> <to> <from> <nbytes> <file>                       -> file after move_file_block
+    MF <nprocs> <unit> <nvars> (<oldbegin> <newbegin> <len> <isrec>)* <file>   -> file after move_fixed_vars
+    MR <nprocs> <unit> <newoff> <oldoff> <newrecsize> <oldrecsize> <nrecs> <file> -> file after move_record_vars
+    ED <nprocs> <unit> <oBV> <oBR> <oRS> <nBV> <nBR> <nRS> <nvarsNew> <numrecs> <nold> (<ob> <nb> <len> <isrec>)* <file>
+                                                                          -> file after the moving block of ncmpio__enddef
+    AB <isNew> <indef> <indep> <readonly> <hasOld> <numRecVars> <redefFirst> -> removed | kept <n syncs by redef> <n syncs by abort>
+-/
+open PnVerif.Redef
+
+def hexVal (c : Char) : Option Nat :=
+  if '0' ≤ c ∧ c ≤ '9' then some (c.toNat - '0'.toNat)
+  else if 'a' ≤ c ∧ c ≤ 'f' then some (c.toNat - 'a'.toNat + 10)
+  else if 'A' ≤ c ∧ c ≤ 'F' then some (c.toNat - 'A'.toNat + 10)
+  else none
+
+def parseHexFile (s : String) : Option File :=
+  if s == "-" then some [] else
+  let rec go : List Char → List UInt8 → Option (List UInt8)
+    | [], acc => some acc.reverse
+    | [_], _ => none
+    | a :: b :: rest, acc =>
+      match hexVal a, hexVal b with
+      | some x, some y => go rest (UInt8.ofNat (x * 16 + y) :: acc)
+      | _, _ => none
+  go s.toList []
+
+def hexDigit (n : Nat) : Char := if n < 10 then Char.ofNat (48 + n) else Char.ofNat (87 + n)
+
+def showFile (f : File) : String :=
+  if f.isEmpty then "-" else
+  String.ofList (f.foldr (fun b acc => hexDigit (b.toNat / 16) :: hexDigit (b.toNat % 16) :: acc) [])
+
+def nats (xs : List String) : Option (List Nat) := xs.mapM String.toNat?
+
+def parseVars : Nat → List Nat → Option (List MVar × List Nat)
+  | 0, rest => some ([], rest)
+  | n + 1, o :: nw :: l :: r :: rest =>
+    match parseVars n rest with
+    | some (vs, rest') => some (⟨o, nw, l, r != 0⟩ :: vs, rest')
+    | none => none
+  | _, _ => none
+
+def parseMode (s : String) : Option ReadMode :=
+  if s == "S" then some .short
+  else if s.startsWith "F" then (s.drop 1).toNat?.map fun b => ReadMode.full (fun _ => UInt8.ofNat b)
+  else none
+
+def stepM (m : ReadMode) (toks : List String) : String :=
+  match toks with
+  | ["MB", np, un, to, frm, nb, fl] =>
+    match nats [np, un, to, frm, nb], parseHexFile fl with
+    | some [np, un, to, frm, nb], some f => showFile (moveBlock m np un f to frm nb)
+    | _, _ => "bad-args"
+  | "MF" :: np :: un :: nv :: rest =>
+    match rest.getLast?, nats (np :: un :: nv :: rest.dropLast) with
+    | some fl, some (np :: un :: nv :: nums) =>
+      match parseVars nv nums, parseHexFile fl with
+      | some (vs, []), some f => showFile (moveFixed m np un f vs)
+      | _, _ => "bad-args"
+    | _, _ => "bad-args"
+  | ["MR", np, un, no, oo, nr, or_, n, fl] =>
+    match nats [np, un, no, oo, nr, or_, n], parseHexFile fl with
+    | some [np, un, no, oo, nr, or_, n], some f => showFile (moveRecords m np un f no oo nr or_ n)
+    | _, _ => "bad-args"
+  | "ED" :: rest =>
+    match rest.getLast?, nats rest.dropLast with
+    | some fl, some (np :: un :: obv :: obr :: ors :: nbv :: nbr :: nrs :: nvn :: nrec :: nold :: nums) =>
+      match parseVars nold nums, parseHexFile fl with
+      | some (vs, []), some f =>
+        showFile (enddefMove m np un f ⟨obv, obr, ors⟩ ⟨nbv, nbr, nrs⟩ nvn nrec vs)
+      | _, _ => "bad-args"
+    | _, _ => "bad-args"
+  | _ => "bad-op"
+
+def step (line : String) : String :=
+  let toks := (line.trimAscii.toString.splitOn " ").filter (· ≠ "")
+  match toks with
+  | ["AB", isNew, indef, indep, ro, hasOld, nrv, redefFirst] =>
+    match nats [isNew, indef, indep, ro, hasOld, nrv, redefFirst] with
+    | some [isNew, indef, indep, ro, hasOld, nrv, redefFirst] =>
+      -- the numrecs sync appends one marker byte, so the number of syncs is visible in the result
+      let sync : File → File := fun f => f ++ [1]
+      let s : NCState := ⟨isNew != 0, indef != 0, indep != 0, ro != 0, hasOld != 0, nrv⟩
+      let d : Disk := some []
+      let (s1, d1) := if redefFirst != 0 then redef sync s d else (s, d)
+      let n1 := (d1.getD []).length
+      match abort sync s1 d1 with
+      | none => "removed"
+      | some f => s!"kept {n1} {f.length - n1}"
+    | _ => "bad-args"
+  | md :: rest =>
+    match parseMode md with
+    | some m => stepM m rest
+    | none => "bad-mode"
+  | _ => "bad-op"
+
+partial def loop (h : IO.FS.Stream) (out : IO.FS.Stream) : IO Unit := do
+  let line ← h.getLine
+  if line.isEmpty then return ()
+  out.putStrLn (step line)
+  loop h out
+
+def main : IO Unit := do
+  let out ← IO.getStdout
+  loop (← IO.getStdin) out
